@@ -1053,6 +1053,9 @@ func vc14Setup(t *rapid.T) *vc14Machine {
 		c.typ = rapid.IntRange(0, nTypes-1).Draw(t, "type")
 		w.ctrs = append(w.ctrs, c)
 	}
+	// restart scenario: the dispatcher has just been restarted, it has not probed
+	// any instance yet, and most active containers have a process somewhere
+	restart := rapid.IntRange(0, 4).Draw(t, "restartScenario") == 2
 	nInsts := rapid.SampledFrom([]int{2, 1, 3, 2, 3}).Draw(t, "nInstances")
 	for i := 0; i < nInsts; i++ {
 		w.nextID++
@@ -1060,6 +1063,9 @@ func vc14Setup(t *rapid.T) *vc14Machine {
 		in.typ = rapid.IntRange(0, nTypes-1).Draw(t, "instType")
 		in.state = rapid.SampledFrom([]string{vc14Idle, vc14Booting, vc14Idle, vc14Unknown, vc14Idle}).Draw(t, "instState")
 		in.behavior = rapid.SampledFrom([]string{vc14Run, vc14Run, vc14Run, vc14Run, vc14Run, vc14Run, vc14Run, vc14Hold, vc14Drain}).Draw(t, "instBehavior")
+		if restart && in.state == vc14Idle {
+			in.state = vc14Unknown
+		}
 		w.settleInst(in)
 		w.insts = append(w.insts, in)
 	}
@@ -1074,6 +1080,9 @@ func vc14Setup(t *rapid.T) *vc14Machine {
 			want = r >= 30 && r < 70
 		default:
 			want = r >= 40 && r < 50
+		}
+		if restart && (c.state == arvados.ContainerStateRunning || c.state == arvados.ContainerStateLocked) {
+			want = r < 75
 		}
 		if !want {
 			continue
